@@ -8,6 +8,7 @@ import (
 	li "github.com/corazawaf/libinjection-go"
 
 	"verif/harness/core"
+	"verif/harness/gen"
 )
 
 // documented token class characters (sqli_const.go), without the internal
@@ -403,10 +404,23 @@ func c08() *core.Check {
 func c12() *core.Check {
 	return &core.Check{
 		ID: "C12",
-		Rule: "for every SQL workload input: (a) IsSQLi is compared with the documented cascade evaluated over fresh-state per-context observations (the MySQL gate is decided from the tokens the ANSI pass lexed: a '#' operator or a '--x' comment); (b) for q in {',\"} and both dialects the fingerprint, verdict (unless sos/s&s) and token stream of reading s inside q are compared with reading q+s as-is. " +
+		Rule: "for every SQL workload input: (a) IsSQLi is compared with the documented cascade evaluated over fresh-state per-context observations (the MySQL gate is decided from the tokens the ANSI pass lexed: a '#' operator or a '--x' comment); (a') a flood of 24 M (thorough 400 M) pairwise distinct inputs of equal length (24-1024 bytes; attack and benign templates with random filler, 16 goroutines), each answer compared with its template's cascade answer and, on disagreement, with the cascade of that input: an answer remembered under a lossy key (up to about 32 bits) is handed to another input here; (b) for q in {',\"} and both dialects the fingerprint, verdict (unless sos/s&s) and token stream of reading s inside q are compared with reading q+s as-is. " +
 			"Non-trivial = distinct inputs whose firing context is not the first, or whose quote-context token stream has >= 2 tokens.",
-		Plan: sqlPlan(c08Quick, c08Thorough),
-		Gen:  sqlGen,
+		Plan: func(tier string, seed uint64) []core.Unit {
+			us := sqlPlan(c08Quick, c08Thorough)(tier, seed)
+			n := uint64(24000000)
+			if tier == "thorough" {
+				n = 400000000
+			}
+			return append(us, gen.RangeUnits("flood", n, 200000, "")...)
+		},
+		Gen: func(w *core.Worker, u core.Unit, emit func(core.Case)) {
+			if u.Gen == "flood" {
+				genFlood(w, u, emit)
+				return
+			}
+			sqlGen(w, u, emit)
+		},
 		One: func(w *core.Worker, c core.Case) {
 			s := c.In
 			if len(s) > 1<<16 {
@@ -414,6 +428,22 @@ func c12() *core.Check {
 			}
 			w.Eval(1)
 			b, f := li.IsSQLi(s)
+			if c.Kind == "flood" {
+				// pre-filter: the template's answer (computed over fresh-state passes
+				// on its first instance); only a disagreement pays for the cascade
+				if b == (c.A == 1) && f == c.S {
+					w.Count("flood_calls_agreeing_with_template", 1)
+					w.Nontrivial(s)
+					return
+				}
+				r := cascade(s)
+				if b != r.verdict || f != r.fp {
+					w.ViolateConfirmed("cascade-mismatch", fmt.Sprintf("IsSQLi = (%v,%q) in a process that has answered millions of other same-length inputs; documented cascade over fresh-state passes = (%v,%q) fired=%d (one call in a fresh process may answer correctly: the answer depends on earlier calls)\n%s", b, f, r.verdict, r.fp, r.fired, explainCascade(&r)))
+				} else {
+					w.Count("flood_instances_differing_from_template", 1)
+				}
+				return
+			}
 			r := cascade(s)
 			if b != r.verdict || f != r.fp {
 				w.Violate("cascade-mismatch", fmt.Sprintf("IsSQLi = (%v,%q); documented cascade over fresh-state passes = (%v,%q) fired=%d\n%s", b, f, r.verdict, r.fp, r.fired, explainCascade(&r)))
@@ -504,4 +534,51 @@ func compareShifted(in, as *li.VerifSQLTrace) string {
 		return "final scan offsets differ"
 	}
 	return ""
+}
+
+// genFlood: pairwise distinct inputs of one length per unit, alternating
+// attack and benign templates; A/S carry the template's cascade answer.
+func genFlood(w *core.Worker, u core.Unit, emit func(core.Case)) {
+	lens := []int{320, 256, 96, 24, 64, 257, 1024, 48}
+	L := lens[int(u.Lo/200000)%len(lens)]
+	r := core.NewRng(w.R.Seed, "flood", fmt.Sprint(u.Lo))
+	const alnum = "abcdefghijklmnopqrstuvwxyz0123456789ABCDEFGHIJKLMNOPQRSTUVWXYZ"
+	tmpls := []string{"1' or 1=1 -- %", "%", "x%' or 1=1 -- ", "hello % world", "1 union select 1,2 -- %", "% %"}
+	type exp struct {
+		v  int64
+		fp string
+	}
+	exps := make([]*exp, len(tmpls))
+	buf := make([]byte, 0, L)
+	for i := u.Lo; i < u.Hi; i++ {
+		ti := int(i % uint64(len(tmpls)))
+		t := tmpls[ti]
+		k := strings.IndexByte(t, '%')
+		fill := L - (len(t) - strings.Count(t, "%"))
+		if fill < 8 {
+			continue
+		}
+		buf = buf[:0]
+		buf = append(buf, t[:k]...)
+		for j := 0; j < fill; j++ {
+			if t == "% %" && j == fill/2 {
+				buf = append(buf, ' ')
+				continue
+			}
+			buf = append(buf, alnum[r.Intn(len(alnum))])
+		}
+		if t != "% %" {
+			buf = append(buf, t[k+1:]...)
+		}
+		in := string(buf)
+		if exps[ti] == nil {
+			c := cascade(in)
+			e := &exp{fp: c.fp}
+			if c.verdict {
+				e.v = 1
+			}
+			exps[ti] = e
+		}
+		emit(core.Case{In: in, Kind: "flood", A: exps[ti].v, S: exps[ti].fp})
+	}
 }
